@@ -88,14 +88,13 @@ def check_predicate(report):
     r1.check(ff["proto_plus_only"] or not ff["key_rule"], fm.module.path, fm.node.lineno, "flattened key suffixed for every reserved word",
              "the key is the attribute path written as `request.<key> = <param>`; a raw pb2 (dependency package) request keeps `type`, so the key "
              "must be suffixed only when the resolved field's own name is (reserved AND proto-plus), like Field.name")
-    # body suffix in try_parse_http_rule
-    from ..pymodel import nfunc, find_match_ast
-    from ..pynorm import norm_expr, canon_globals
-    tp = m.func("gapic.schema.wrappers.HttpRule.try_parse_http_rule")
-    pat = canon_globals(m, norm_expr(ast.parse("f'{_ANYB_}_' if _ANYB_ in utils.RESERVED_NAMES and (not _ANYB_.endswith('_')) else _ANYB_", mode="eval").body))
-    node, bb = find_match_ast(pat, nfunc(m, tp, keep={"RESERVED_NAMES"}))
+    # body suffix in try_parse_http_rule (decided on finite models of its normal form, see common_rules.try_parse_http_rule_table)
+    from .common_rules import try_parse_http_rule_table
+    bad, shown, tp = try_parse_http_rule_table()
     r1.instance("http body suffix")
-    r1.check(node is not None and bb["_ANYB_"].endswith(".body or None"), tp.module.path, tp.node.lineno, "body + '_' if body in RESERVED_NAMES",
+    r1.need(bad is not None, "HttpRule.try_parse_http_rule", shown)
+    body_bad = [b for b in (bad or []) if "verb='get' uri='/v1/x'" in b]
+    r1.check(not body_bad, tp.module.path, tp.node.lineno, f"body + '_' if body in RESERVED_NAMES: {'; '.join(body_bad[:2])}" if body_bad else "body + '_' if body in RESERVED_NAMES",
              "the http body field name follows the same rule")
 
     r2 = report.rule("C12.2", "every Python keyword of the running interpreter is in RESERVED_NAMES", floor=30)
